@@ -173,7 +173,10 @@ def handle (d : DState) (line : String) : DState × List String :=
         -- the first query anchors intervals without start (object state of the real producer)
         let p := p.anchorAt dt.int!
         let r := getNext d.env p dt.int!
-        let d := { d with prods := d.prods.insert pid.nat! p }
+        -- `self._next` is assigned when `get_next` returns: a failed query leaves the object unanchored
+        let d := match r with
+          | .ok _ => { d with prods := d.prods.insert pid.nat! p }
+          | .error _ => d
         (d, [match r with | .ok v => s!"ok {v}" | .error e => s!"err {e.name}"])
   | [.atom "local", u] =>
       let L := d.zone.toLocal u.int!
